@@ -251,3 +251,51 @@ Proof.
   - cbv zeta. split; [cbn; lia|]. split; [eexists; split; vm_compute; reflexivity|].
     vm_compute. repeat split; reflexivity.
 Qed.
+
+(** * the bank's view when the account's OWN vesting is still running
+    LockedCoins = OriginalVesting - min(unlocked, vested) over the MERGED
+    schedules.  A redeemed share is vested on arrival and locked; if the account's
+    own coins are unlocked but not yet vested, the two free each other.  Reference
+    amount the bank held locked of the own grant: original - min(unlocked events,
+    vested events). *)
+Definition vested_ev (a : acct) (t : Z) : Z := ev (a_start a) (a_vest a) t.
+Definition locked_ref (a : acct) (t : Z) : Z := a_orig a - Z.min (unlocked_ev a t) (vested_ev a t).
+
+(** As long as the account's own vesting is not behind its own lockup, the merged
+    account locks all of it plus the share. *)
+Theorem merge_bank_locked va gs gl gv c va' t :
+  acct_ok va -> grant_ok gl gv c -> add_grant true va gs gl gv c = Some va' ->
+  unlocked_ev va t <= vested_ev va t ->
+  locked_ref va t + (c - ev gs gl t) <= locked_coins va' t.
+Proof.
+  intros Hva Hg Ha Hv.
+  destruct (merge_locks_both va gs gl gv c va' Hva Hg Ha t) as (H1 & H2 & _).
+  unfold locked_ref. rewrite Z.min_l by exact Hv. lia.
+Qed.
+
+(** Without that hypothesis the statement is false for the code as it is: own
+    grant of 100 unlocked at 1010 but vesting only at 6000; a share of 50 due at
+    2000 arrives.  Before: the bank locks all 100 own coins, the share's 50 are
+    locked in the token; after the merge LockedCoins is 100, not 150: 50 coins are
+    spendable 500 s before the share's release (and 4500 s before the own vesting
+    event). *)
+Definition uv_acct : acct := new_acct 1000 100 [(10, 100)] [(5000, 100)].
+
+Example merge_bank_locked_unvested_refuted :
+  exists va',
+    add_grant true uv_acct 1100 [(900, 50)] [(0, 50)] 50 = Some va' /\
+    acct_ok uv_acct /\ grant_ok [(900, 50)] [(0, 50)] 50 /\
+    locked_coins uv_acct 1500 = 100 /\ locked_ref uv_acct 1500 = 100 /\
+    50 - ev 1100 [(900, 50)] 1500 = 50 /\
+    locked_coins va' 1500 = 100 /\
+    ~ (locked_ref uv_acct 1500 + (50 - ev 1100 [(900, 50)] 1500) <= locked_coins va' 1500) /\
+    (* the lockup obligations alone are met *)
+    (a_orig uv_acct - unlocked_ev uv_acct 1500) + (50 - ev 1100 [(900, 50)] 1500) <= locked_coins va' 1500.
+Proof.
+  eexists. split; [vm_compute; reflexivity|].
+  split. { unfold acct_ok, uv_acct, new_acct; cbn. repeat split; try lia; repeat constructor; cbn; lia. }
+  split. { unfold grant_ok. repeat split; try reflexivity; repeat constructor; cbn; lia. }
+  repeat split; try (vm_compute; reflexivity).
+  - vm_compute. intros H. apply H. reflexivity.
+  - vm_compute. intros H. discriminate H.
+Qed.
